@@ -121,6 +121,16 @@ def paren_variants(text_tokens, ref_tree):
         out.append(' '.join(text_tokens[:a] + ['(' + ' '.join(text_tokens[a:b + 1]) + ')'] + text_tokens[b + 1:]))
     return out
 
+def split_ops(text):
+    """the operand / operator token list of a generated expression text (operands may contain spaces inside brackets)"""
+    out = []; depth = 0; cur = ''
+    for part in text.split(' '):
+        if depth == 0 and part in OPS and cur == '': out.append(part); continue
+        cur = (cur + ' ' + part) if cur else part
+        depth += sum(part.count(x) for x in '([{') - sum(part.count(x) for x in ')]}')
+        if depth == 0: out.append(cur); cur = ''
+    return out
+
 def seq_job(k, operands, laws, ops=None):
     ops = ops or OPS
     name = 'ops-%d-%s' % (k, re.sub(r'\W+', '_', operands[0]))
@@ -149,7 +159,8 @@ def seq_job(k, operands, laws, ops=None):
         if cr != cf: obs['viol'] = 'grouping / operator / operator position differs: parser %r, tier rule %r' % (cr, cf); return obs
         if laws:
             base = canon_real(real[1], False)
-            for t2 in paren_variants(toks, ref):
+            skel = front.parse_expr(' '.join(('p%d' % (i // 2)) if i % 2 == 0 else t for i, t in enumerate(toks)))    # operands as atoms
+            for t2 in paren_variants(toks, skel):
                 obs['checks'] += 1
                 r2 = parse_real(M, t2)
                 if r2[0] == 'err' or canon_real(r2[1], False) != base: obs['viol'] = 'redundant parentheses change the tree: %r' % t2; return obs
@@ -179,7 +190,17 @@ def seq_job(k, operands, laws, ops=None):
                     res['replay_ok'] += 1
                     res['violations'].append({'aspect': 'grouping', 'role': 'grouping', 'what': '%s: %s | native %r, reference %r' % (o['text'], o['viol'], (nat[0], (nat[1] + nat[2])[:100]), (ref[0], ref[1][:60])), 'script': script, 'ext': 'sd'})
                 else:
-                    res['inconclusive'].append('%s: %s (AST-level difference; the sample evaluation does not distinguish the trees natively)' % (o['text'], o['viol']))
+                    # second attempt: all operands null -- every operator fails on its operands, so the diagnostic names the operator that is
+                    # applied FIRST (the innermost-leftmost group) and its position, which differs between most groupings
+                    toks = o['text'].split(' ')
+                    script2 = 'n := null\nprint(' + ' '.join(t if t in OPS else 'n' for t in split_ops(o['text'])) + ')\n'
+                    nat2 = F.native_run(binary, script2, wd); ref2 = sem.run_concrete(script2)
+                    probs = F.check_diagnostic(z3.Solver(), [nat2[2]], ref2[2], ('position', 'message')) if (ref2[0] == 'error' and nat2[0] == 103) else []
+                    if probs:
+                        res['replay_ok'] += 1
+                        res['violations'].append({'aspect': 'grouping', 'role': 'grouping', 'what': '%s: %s | with null operands the first operator applied is reported at %r, the tier rule applies another first: %s' % (o['text'], o['viol'], nat2[2][:80], probs[0][1]), 'script': script2, 'ext': 'sd'})
+                    else:
+                        res['inconclusive'].append('%s: %s (AST-level difference; neither sample evaluation distinguishes the trees natively)' % (o['text'], o['viol']))
     return {'name': name, 'path_fn': path_fn, 'post': post, 'timeout': 3000}
 
 def run(tier, seed):
